@@ -291,6 +291,49 @@ Section Event.
     - apply Hplain. unfold isconf. rewrite Ep. reflexivity.
   Qed.
 
+  (* one examined entry of a (batched) proposal, on any node value *)
+  Lemma propose_cc_nok : forall id c p n pend,
+    PD n pend -> nok n -> nok (fst (fst (handle_cc id c (EvPropose p) n pend))).
+  Proof.
+    intros id c p n pend Hpd Hn. unfold handle_cc.
+    destruct (n_role n) eqn:Er; try exact Hn.
+    destruct (negb (tracked c id)); [exact Hn|].
+    assert (Hplain : forall q, isconf q = false -> nok (propose q n)).
+    { intros q Hq. unfold propose. rewrite Er. unfold nok. cbn [set_log n_log n_commit]. apply cc_ok_app_plain; assumption. }
+    destruct (cc_of_payload p) as [op|] eqn:Ep; cbn [fst].
+    - destruct ((n_commit n <? pend) || (joint c && negb match op with CcLeave => true | _ => false end)
+                || (negb (joint c) && match op with CcLeave => true | _ => false end)) eqn:Eref; cbn [fst].
+      + apply Hplain. reflexivity.
+      + apply orb_false_iff in Eref as [Eref _]. apply orb_false_iff in Eref as [Eref _]. apply Nat.ltb_ge in Eref.
+        unfold propose. rewrite Er. unfold nok. cbn [set_log n_log n_commit]. apply cc_ok_pending; [|exact Hn].
+        intros j e Hj Hc. destruct (Nat.lt_ge_cases j (n_commit n)) as [Hlt|Hge]; [exact Hlt|].
+        pose proof (Hpd Er j e Hj Hc Hge). lia.
+    - apply Hplain. unfold isconf. rewrite Ep. reflexivity.
+  Qed.
+
+  (* the step generalised to batched proposals: whatever the positions of the configuration changes
+     among the entries of one MsgProp, the node still holds at most one uncommitted change *)
+  Lemma batch_cc_nok : forall id c ps n pend,
+    PD n pend -> nok n ->
+    PD (fst (batch_cc id c ps n pend)) (snd (batch_cc id c ps n pend)) /\ nok (fst (batch_cc id c ps n pend)).
+  Proof.
+    intros id c. induction ps as [|p ps IH]; intros n pend Hpd Hn; [split; assumption|].
+    cbn [batch_cc]. pose proof (handle_cc_PD id c (EvPropose p) n pend Hpd) as P1.
+    pose proof (propose_cc_nok id c p n pend Hpd Hn) as N1.
+    destruct (handle_cc id c (EvPropose p) n pend) as [[n1 out] pend1]. cbn [fst] in N1. apply IH; assumption.
+  Qed.
+
+  Lemma exec_batch_nok : forall id ps n pend,
+    PD n pend -> nok n -> nok (fst (fst (exec_batch boot page1 id ps (n, pend)))).
+  Proof.
+    intros id ps n pend Hpd Hn. unfold exec_batch.
+    destruct (batch_cc_nok id (node_cfg boot n) ps n pend Hpd Hn) as [P1 N1].
+    destruct (batch_cc id (node_cfg boot n) ps n pend) as [n1 pend1]. cbn [fst snd] in P1, N1.
+    pose proof (iter_both page1 id (2 * length (n_log n1) + 8) n1 (node_cfg boot n) pend1 (n_commit n) P1 N1) as R.
+    destruct (iter (2 * length (n_log n1) + 8) (ready_iter page1 id) (n1, node_cfg boot n, pend1, n_commit n)) as [[[n2 c2] pend2] a2].
+    cbn. exact (proj2 R).
+  Qed.
+
   Lemma exec_cc_nok : forall s id ev pend,
     Inv F s -> C2 s ->
     (forall m, ev = EvRecv m -> In m (msgs s) /\ m_to m = id) ->
@@ -392,18 +435,32 @@ Section Event.
     - pose proof (cxreachableF_cenv F boot page1 x Hx) as Henv.
       pose proof (cc_pending_discipline boot page1 x (cxreachableF_cxreachable x Hx)) as Hpd.
       pose proof (mreachable_inv F HF s Hr) as I.
-      destruct Hstep as [id ev extra Hev Hemit].
+      destruct Hstep as [id cev extra Hev Hemit].
       destruct (cx_nodes x id) as [nx pend] eqn:Enode.
       assert (Hnid : nodes s id = nx) by (rewrite Hn, Enode; reflexivity).
       rewrite <- Hm in Hev.
       assert (Henv0 : lenv F boot (n_log (nodes s id)) (n_commit (nodes s id))).
       { rewrite Hnid. specialize (Henv id). rewrite Enode in Henv. exact Henv. }
-      assert (Henv1 : lenv F boot (n_log (fst (fst (exec_cc boot page1 id ev (nodes s id, pend))))) (n_commit (fst (fst (exec_cc boot page1 id ev (nodes s id, pend)))))).
+      assert (Henv1 : lenv F boot (n_log (fst (fst (exec_cce boot page1 id cev (nodes s id, pend))))) (n_commit (fst (fst (exec_cce boot page1 id cev (nodes s id, pend)))))).
       { rewrite Hnid. specialize (Henv' id). cbn [cx_nodes] in Henv'. rewrite upd_same in Henv'. exact Henv'. }
       assert (Hpd0 : PD (nodes s id) pend) by (specialize (Hpd id); rewrite Enode in Hpd; rewrite Hnid; exact Hpd).
       assert (Hnok0 : nok (nodes s id)) by (specialize (Hnok id); rewrite Enode in Hnok; rewrite Hnid; exact Hnok).
-      pose proof (exec_cc_nok s id ev pend I H2 Hev Hpd0 Hnok0) as Hnok1.
-      destruct (exec_cc_sim F HF boot page1 s id ev pend Hr Hev Henv0 Henv1) as [s1 R1].
+      assert (Hboth : nok (fst (fst (exec_cce boot page1 id cev (nodes s id, pend)))) /\
+                      (forall m, In m (snd (exec_cce boot page1 id cev (nodes s id, pend))) -> m_type m <> MsgApp) /\
+                      exists s1, reaches F s id (fst (fst (exec_cce boot page1 id cev (nodes s id, pend))))
+                                         (snd (exec_cce boot page1 id cev (nodes s id, pend))) s1).
+      { destruct cev as [ev|ps]; cbn [exec_cce] in *.
+        - assert (Hev' : forall m, ev = EvRecv m -> In m (msgs s) /\ m_to m = id) by (intros m Em; apply Hev; rewrite Em; reflexivity).
+          split; [exact (exec_cc_nok s id ev pend I H2 Hev' Hpd0 Hnok0)|]. split.
+          + intros m Hin. exact (exec_cc_out_noapp id ev (nodes s id, pend) m Hin).
+          + exact (exec_cc_sim F HF boot page1 s id ev pend Hr Hev' Henv0 Henv1).
+        - assert (Eout : snd (exec_batch boot page1 id ps (nodes s id, pend)) = []).
+          { unfold exec_batch. destruct (batch_cc id (node_cfg boot (nodes s id)) ps (nodes s id) pend) as [n1 pend1].
+            destruct (iter _ _ _) as [[[n2 c2] pend2] a2]. reflexivity. }
+          split; [exact (exec_batch_nok id ps (nodes s id) pend Hpd0 Hnok0)|]. split.
+          + intros m Hin. rewrite Eout in Hin. destruct Hin.
+          + rewrite Eout. exact (exec_batch_sim F HF boot page1 s id ps pend Hr Henv0 Henv1). }
+      destruct Hboth as (Hnok1 & Hnoapp & s1 & R1).
       rewrite Hnid in R1, Hnok1.
       pose proof (proj1 (proj2 R1)) as Hn1.
       assert (Hemit' : forallb (emit_okb id (nodes s1 id)) extra = true).
@@ -425,13 +482,13 @@ Section Event.
              destruct (msteps_LL s s2 Hr A1 (m_term m)) as [suf E]. rewrite E.
              rewrite firstn_app_le by exact Hlen. apply (H2 m Hin Hty).
           -- apply in_app_or in Hin as [Hin|Hin].
-             ++ exfalso. apply (exec_cc_out_noapp id ev (nx, pend) m Hin). exact Hty.
+             ++ exfalso. apply (Hnoapp m); [rewrite Hnid; exact Hin|exact Hty].
              ++ rewrite forallb_forall in Hemit. specialize (Hemit m Hin). unfold emit_cc_okb in Hemit.
                 apply andb_true_iff in Hemit as [He Hc]. rewrite Hty in Hc.
                 unfold emit_okb in He. rewrite Hty in He.
                 apply andb_true_iff in He as [He0 He]. apply andb_true_iff in He0 as [_ Het]. apply Nat.eqb_eq in Het.
                 apply andb_true_iff in He as [He _]. apply andb_true_iff in He as [He _]. apply andb_true_iff in He as [Hrl _].
-                set (n' := fst (fst (exec_cc boot page1 id ev (nx, pend)))) in *.
+                set (n' := fst (fst (exec_cce boot page1 id cev (nx, pend)))) in *.
                 assert (Hlead : n_role (nodes s2 id) = Leader) by (rewrite A2; destruct (n_role n'); try discriminate; reflexivity).
                 pose proof (hW5 _ _ I2 id Hlead) as E5. unfold nd in E5. rewrite A2 in E5.
                 rewrite Het, E5. apply cc_okb_spec. exact Hc.
